@@ -34,7 +34,10 @@ func (r Report) isEqual(nr Report) bool {
 	if r.Problem.Lines.First != nr.Problem.Lines.First {
 		return false
 	}
-	if r.Problem.Lines.Last != nr.Rule.Lines.Last {
+	if r.Problem.Lines.Last != nr.Problem.Lines.Last {
+		return false
+	}
+	if r.Problem.Details != nr.Problem.Details {
 		return false
 	}
 	if !nr.Rule.IsSame(r.Rule) {
@@ -161,6 +164,7 @@ func (s *Summary) SortReports() {
 			cmp.Compare(a.Problem.Severity, b.Problem.Severity),
 			cmp.Compare(a.Problem.Reporter, b.Problem.Reporter),
 			cmp.Compare(a.Problem.Summary, b.Problem.Summary),
+			cmp.Compare(a.Problem.Details, b.Problem.Details),
 			cmpDiagnostics(a.Problem.Diagnostics, b.Problem.Diagnostics),
 		)
 	})
